@@ -26,6 +26,7 @@ package main
 
 import (
 	"encoding/json"
+	"slices"
 	"strings"
 
 	"verif/lib"
@@ -136,6 +137,9 @@ func alphabet(thorough bool) []drive.Event {
 		drop("c"),
 		// system table
 		drop("tables"),
+		// persist: a table created and dropped between two persists takes the
+		// "never persisted, no tombstone" path of Meta.Drop
+		drive.Persist(),
 	}
 	if thorough {
 		evs = append(evs,
@@ -157,6 +161,41 @@ func alphabet(thorough bool) []drive.Event {
 		)
 	}
 	return evs
+}
+
+// absStep is the abstract persistence state that the search distinguishes in
+// addition to the model state: "" before the first persist, afterwards "P:" +
+// the sorted names of the tables created since the last persist.
+func absStep(abs string, ev drive.Event, before, after *dbmodel.DB) string {
+	if ev.Kind == "persist" {
+		return "P:"
+	}
+	if abs == "" || ev.Kind != "admin" || before == after {
+		return abs
+	}
+	var fresh []string
+	if abs != "P:" {
+		fresh = strings.Split(abs[2:], ",")
+	}
+	r := ev.Req
+	switch r.Kind {
+	case "create":
+		fresh = append(fresh, r.Table)
+	case "ensure":
+		if before.Tables[r.Table] == nil {
+			fresh = append(fresh, r.Table)
+		}
+	case "drop":
+		fresh = slices.DeleteFunc(fresh, func(t string) bool { return t == r.Table })
+	case "rename":
+		for i, t := range fresh {
+			if t == r.From[0] {
+				fresh[i] = r.To[0]
+			}
+		}
+	}
+	slices.Sort(fresh)
+	return "P:" + strings.Join(fresh, ",")
 }
 
 type failCase struct {
@@ -214,14 +253,14 @@ func run(c *lib.Ctx) {
 			v.Msg, strings.Join(drive.EventsText(path), " ; "))
 	}
 	// 1. from the empty database
-	x := &drive.Explorer{C: c, Events: evs, MaxDepth: depth, New: drive.NewHeap, Judge: judge, Fail: fail}
+	x := &drive.Explorer{C: c, Events: evs, MaxDepth: depth, New: drive.NewHeap, Abs: absStep, Judge: judge, Fail: fail}
 	x.Run(nil)
 	// 2. from a populated, fully linked database (non-initial seed): a, b -> a,
 	// self referencing c, rows in all three, a view
 	seed := []drive.Event{evs[0], evs[1], evs[2], evs[3], evs[4],
 		ins("c", M{"k": "1"}, M{"k": "2", "p": "1"}), view("v", "a join b")}
 	c.Set("seed", drive.EventsText(seed))
-	x2 := &drive.Explorer{C: c, Events: evs, MaxDepth: seedDepth, New: drive.NewHeap, Judge: judge, Fail: fail}
+	x2 := &drive.Explorer{C: c, Events: evs, MaxDepth: seedDepth, New: drive.NewHeap, Abs: absStep, Judge: judge, Fail: fail}
 	x2.Run(seed)
 	if c.Shard == 0 {
 		c.Set("bfs_states_from_empty", x.States)
